@@ -206,20 +206,23 @@ func (m *memCarrier) waitTimer(max time.Duration) bool {
 	start := m.timerWrites
 	m.inWait = true
 	m.mu.Unlock()
-	defer func() {
-		m.mu.Lock()
-		m.inWait = false
-		m.mu.Unlock()
-	}()
 	deadline := time.Now().Add(max)
 	for time.Now().Before(deadline) {
 		m.mu.Lock()
 		seen := m.timerWrites > start
+		if seen {
+			m.inWait = false
+		}
 		m.mu.Unlock()
 		if seen {
 			return true
 		}
 		time.Sleep(200 * time.Microsecond)
 	}
-	return false
+	// closing the window and the last look happen together, so a late firing is either seen or flagged
+	m.mu.Lock()
+	seen := m.timerWrites > start
+	m.inWait = false
+	m.mu.Unlock()
+	return seen
 }
